@@ -562,3 +562,122 @@ pub fn conversion_determinism(tier: Tier) -> EngineReport {
     rep.detail = json!({"cases": cases.len(), "repetitions_per_case": reps});
     rep
 }
+
+// ------------------------------------------------------------------ C17: larger capacities (hash-table growth, tombstones)
+
+#[derive(Clone, Copy, Debug, serde::Serialize, serde::Deserialize, PartialEq)]
+pub enum ChurnOp {
+    /// put a key that was never used before
+    PutFresh,
+    /// remove(&k) of the least / most recently used resident key (by lookup, not remove_lru)
+    RemoveOldest,
+    RemoveNewest,
+    /// get(&k) of the least recently used resident key
+    GetOldest,
+}
+
+/// Small capacities never make the hash index grow in place, leave tombstones or run out of spare
+/// slots; those effects need tables of >= 32 buckets. This engine starts from a *pre-filled* cache of
+/// capacity 16..40 and explores all sequences of a relative alphabet (states merge on the key order,
+/// which keeps the space polynomial), in lock-step under six hashers.
+pub fn churn(tier: Tier) -> EngineReport {
+    let mut rep = EngineReport { name: "large-capacity churn in lock-step under six hashers".into(), exhaustive: true, ..Default::default() };
+    let kinds = [HKind::SipA, HKind::Identity, HKind::Zero, HKind::Fnv, HKind::SipB, HKind::Random];
+    let menu: Vec<(usize, usize, Vec<ChurnOp>)> = if tier == Tier::Thorough {
+        vec![
+            (16, 30, vec![ChurnOp::PutFresh, ChurnOp::RemoveOldest, ChurnOp::RemoveNewest]),
+            (20, 30, vec![ChurnOp::PutFresh, ChurnOp::RemoveOldest, ChurnOp::RemoveNewest]),
+            (33, 30, vec![ChurnOp::PutFresh, ChurnOp::RemoveOldest]),
+            (20, 14, vec![ChurnOp::PutFresh, ChurnOp::RemoveOldest, ChurnOp::RemoveNewest, ChurnOp::GetOldest]),
+        ]
+    } else {
+        vec![(20, 26, vec![ChurnOp::PutFresh, ChurnOp::RemoveOldest]), (16, 16, vec![ChurnOp::PutFresh, ChurnOp::RemoveOldest, ChurnOp::RemoveNewest])]
+    };
+    let mut details = vec![];
+    for (cap, depth, ops) in menu {
+        let eval = move |hist: &[ChurnOp]| -> crate::lfu::EvalOut {
+            let mut out = crate::lfu::EvalOut { key: None, findings: vec![], nontrivial: false };
+            let r = catch_unwind(AssertUnwindSafe(|| {
+                let mut caches: Vec<RawLRU<u64, u64, DefaultEvictCallback, HB>> = kinds.iter().map(|k| RawLRU::with_hasher(cap, HB::new(*k)).unwrap()).collect();
+                for c in caches.iter_mut() {
+                    for k in 0..cap as u64 {
+                        c.put(k, k);
+                    }
+                }
+                let mut next = cap as u64;
+                let mut problem: Option<String> = None;
+                for (i, op) in hist.iter().enumerate() {
+                    let mut rets: Vec<String> = vec![];
+                    for c in caches.iter_mut() {
+                        let r = match op {
+                            ChurnOp::PutFresh => format!("{:?}", c.put(next, next)),
+                            ChurnOp::RemoveOldest => {
+                                let k = c.peek_lru().map(|(k, _)| *k);
+                                format!("{:?}", k.map(|k| c.remove(&k)))
+                            }
+                            ChurnOp::RemoveNewest => {
+                                let k = c.peek_mru().map(|(k, _)| *k);
+                                format!("{:?}", k.map(|k| c.remove(&k)))
+                            }
+                            ChurnOp::GetOldest => {
+                                let k = c.peek_lru().map(|(k, _)| *k);
+                                format!("{:?}", k.map(|k| c.get(&k).copied()))
+                            }
+                        };
+                        rets.push(r);
+                    }
+                    if *op == ChurnOp::PutFresh {
+                        next += 1;
+                    }
+                    let orders: Vec<Vec<u64>> = caches.iter().map(|c| c.keys().copied().collect()).collect();
+                    for j in 1..caches.len() {
+                        if problem.is_none() && (rets[j] != rets[0] || orders[j] != orders[0]) {
+                            problem = Some(format!(
+                                "capacity {}, pre-filled with 0..{}, after {:?}: step {} ({:?}) returns {} and leaves {:?} under {:?}, but {} and {:?} under {:?}",
+                                cap, cap, &hist[..=i], i, op, rets[0], orders[0], kinds[0], rets[j], orders[j], kinds[j]
+                            ));
+                        }
+                    }
+                }
+                let order: Vec<u64> = caches[0].keys().copied().collect();
+                (order, next, problem)
+            }));
+            match r {
+                Ok((order, next, problem)) => {
+                    if let Some(p) = problem {
+                        out.findings.push(Finding::new("C17", "same_behaviour_at_larger_capacities", format!("cap{}", cap), p));
+                    }
+                    let mut key: Vec<u8> = vec![];
+                    for k in &order {
+                        key.extend_from_slice(&(*k as u16).to_le_bytes());
+                    }
+                    key.extend_from_slice(&(next as u16).to_le_bytes());
+                    out.nontrivial = order.len() < cap;
+                    out.key = Some(key);
+                }
+                Err(_) => {
+                    let _ = crate::panics::take_last(); // a panic is C05's business
+                }
+            }
+            out
+        };
+        let res = crate::lfu::bfs(&ops, if tier == Tier::Thorough { 400_000 } else { 60_000 }, depth, &eval);
+        rep.states += res.states;
+        rep.transitions += res.evals;
+        rep.evaluations += res.evals;
+        rep.distinct_nontrivial += res.nontrivial.min(res.states);
+        if !res.closed {
+            rep.exhaustive = false;
+        }
+        details.push(json!({"capacity": cap, "alphabet": format!("{:?}", ops), "depth": res.max_depth, "states": res.states, "executions": res.evals, "closed": res.closed, "capped": res.capped, "hashers": format!("{:?}", kinds)}));
+        if let Some(h) = res.sample.first() {
+            rep.samples.push(json!({"engine": "churn", "capacity": cap, "history": format!("{:?}", h)}));
+        }
+        for (f, h) in res.findings.into_iter().take(3) {
+            rep.violations.push(Extra { finding: f, case: json!({"engine": "churn", "capacity": cap, "history": h}), count: 1 });
+        }
+    }
+    rep.capped = if rep.exhaustive { None } else { Some("depth-bounded (all sequences of the relative alphabet up to the stated depth)".into()) };
+    rep.detail = json!(details);
+    rep
+}
